@@ -86,3 +86,30 @@ Definition run_hub (case obs : sx) : sx :=
       SL [model; p_hub [] evs]
   | _, _ => bad_case
   end.
+
+(* ---- C11: one record per Ask:  (id want buf flags result detail late victim) ---- *)
+Definition p11_rec (x : sx) : sx :=
+  match x with
+  | SL [SN id; SN want; SN buf; SN flags; res; SN detail; SN late; SN victim] =>
+      if negb (late =? 0) then bad "ask-returned-long-after-its-deadline"
+      else if is_sym "ok" res then
+        if N.testbit detail 0 then bad "ask-returned-bytes-its-handler-did-not-produce"
+        else if N.testbit detail 1 then bad "handler-saw-another-request-or-asker"
+        else if N.testbit flags 0 then bad "success-although-the-handler-signalled-failure"
+        else if buf <? want then bad "success-although-the-response-does-not-fit"
+        else ok
+      else
+        (* an error is always allowed when something went wrong; on a healthy
+           pair of nodes with a fitting buffer and a fast, successful handler it is not *)
+        if (flags =? 0) && (want <=? buf) && (victim =? 0) then bad "error-although-nothing-went-wrong" else ok
+  | _ => bad "unreadable-observation"
+  end.
+
+Fixpoint p11_all (l : list sx) : sx :=
+  match l with [] => ok | x :: t => let v := p11_rec x in if is_sym "ok" v then p11_all t else v end.
+
+Definition run_C11 (case obs : sx) : sx :=
+  match case, obs with
+  | SL (t :: _), SL recs => if is_sym "ask" t then SL [obs; p11_all recs] else run_hub case obs
+  | _, _ => bad_case
+  end.
